@@ -232,7 +232,7 @@ const SWAP_WORDS: &[&str] = &["int", "float", "str", "bool", "void", "self", "st
 pub const FAULT_KINDS: &[&str] = &[
     "trunc-char", "trunc-line", "replace-char", "insert-char", "delete-char", "splice", "drop-lines", "dup-lines",
     "move-lines", "insert-foreign", "conflict", "multibyte", "token-soup", "empty", "crlf", "remove", "ioerr",
-    "insert-decl", "rename-ident", "swap-literal", "reflow", "alias-start",
+    "insert-decl", "rename-ident", "swap-literal", "reflow", "alias-start", "wildcard-import",
 ];
 
 fn make_fault(r: &mut Rng, kind: &str, file: &str, text: &str, corpus: &Corpus, c: &Concrete) -> Option<Fault> {
@@ -371,6 +371,27 @@ fn make_fault(r: &mut Rng, kind: &str, file: &str, text: &str, corpus: &Corpus, 
             positions.sort();
             positions.dedup();
             Fault::Reflow { file, positions, indent: *r.pick(&[0usize, 0, 1, 4, 8]) }
+        }
+        "wildcard-import" => {
+            // an import form the language does not have (yet): everything from a module this file already imports
+            let specs: Vec<String> = lines_of(text)
+                .iter()
+                .filter_map(|l| {
+                    let t = l.trim();
+                    t.strip_prefix("use ").or_else(|| t.strip_prefix("from ")).map(|r| r.split_whitespace().next().unwrap_or("").to_string())
+                })
+                .filter(|s| !s.is_empty())
+                .collect();
+            if specs.is_empty() {
+                return None;
+            }
+            let spec = r.pick(&specs).clone();
+            let line = match r.below(3) {
+                0 => format!("from {} use *", spec),
+                1 => format!("from {} use (*)", spec),
+                _ => format!("use {}.*", spec),
+            };
+            Fault::InsertLines { file, at: 0, text: line, what: "wildcard".into() }
         }
         "alias-start" => {
             // the file no longer defines `start` itself but gets the name through an import
